@@ -263,6 +263,15 @@ func (s *Service) trafficInit() error {
 		return err
 	}
 
+	// peers known only by a stored cheque (no traffic total written yet, not
+	// listed by the contract) have to be restored too
+	for k := range lastCheques {
+		allRetrieveTransfer[k] = struct{}{}
+	}
+	for k := range lastTransCheques {
+		allRetrieveTransfer[k] = struct{}{}
+	}
+
 	addressList, err := s.getAllAddress(allRetrieveTransfer)
 	if err != nil {
 		return fmt.Errorf("traffic: Failed to get chain node information:%v ", err)
